@@ -154,27 +154,36 @@ theorem concatLoader_rows {w : World} {spec : List String} {j : Nat} {cs : List 
 /-! ## 8. the storage invariant and `superGet` -/
 
 /-- what stored superrun data must satisfy: whatever definition `(spec, combining)` a key stands for, the rows
-stored under it are that definition's rows.  (`spec` ranges over run-document orders, i.e. id-sorted lists.) -/
-def Good (H : List String → Bool → String) (w : World) (key : String) (rows : List Row) : Prop :=
-  ∀ (spec : List String) (c : Bool), sortIds spec = spec → key = superrunKey H w.superName spec c →
+stored under it are that definition's rows.  The key only depends on the SET of subruns (`hashablize` sorts the
+dict), so `spec` ranges over a class `Canon` of orderings in which the set determines the order (e.g. "sorted by a
+fixed strict order of run starts", or "sorted by id"). -/
+def Good {κ : Type} (Canon : List String → Prop) (H : List String → Bool → κ) (w : World) (key : Key κ)
+    (rows : List Row) : Prop :=
+  ∀ (spec : List String) (c : Bool), Canon spec → key = superrunKey H w.superName spec c →
     rows = spec.flatMap (srcRows w)
 
-def StoreInv (H : List String → Bool → String) (w : World) (st : Store) : Prop :=
-  ∀ key dt cs, st.lookup (key, dt) = some cs → Good H w key (rowsOf cs)
+def StoreInv {κ : Type} [DecidableEq κ] (Canon : List String → Prop) (H : List String → Bool → κ) (w : World)
+    (st : Store κ) : Prop :=
+  ∀ key dt cs, st.lookup (key, dt) = some cs → Good Canon H w key (rowsOf cs)
 
-theorem storeInv_nil (H : List String → Bool → String) (w : World) : StoreInv H w [] := by
+theorem storeInv_nil {κ : Type} [DecidableEq κ] (Canon : List String → Prop) (H : List String → Bool → κ) (w : World) :
+    StoreInv Canon H w [] := by
   intro key dt cs h; simp at h
 
-theorem good_of_own {H : List String → Bool → String} (hH : ∀ a b c d, H a b = H c d → a = c ∧ b = d)
-    {w : World} {spec : List String} {comb : Bool} (hs : sortIds spec = spec) {rows : List Row}
-    (hr : rows = spec.flatMap (srcRows w)) : Good H w (superrunKey H w.superName spec comb) rows := by
+theorem perm_of_sortIds_eq' {a b : List String} (h : sortIds a = sortIds b) : a.Perm b :=
+  (sortIds_perm a).symm.trans (h ▸ sortIds_perm b)
+
+theorem good_of_own {κ : Type} {Canon : List String → Prop} {H : List String → Bool → κ}
+    (hH : ∀ a b c d, H a b = H c d → a = c ∧ b = d) (hcanon : ∀ a b, Canon a → Canon b → a.Perm b → a = b)
+    {w : World} {spec : List String} {comb : Bool} (hs : Canon spec) {rows : List Row}
+    (hr : rows = spec.flatMap (srcRows w)) : Good Canon H w (superrunKey H w.superName spec comb) rows := by
   intro spec' c' hs' hk
-  have := (superrunKey_inj hH hk).1
-  rw [hs, hs'] at this
+  have := hcanon spec spec' hs hs' (perm_of_sortIds_eq' (superrunKey_inj hH hk).1)
   rw [← this]; exact hr
 
-theorem storeInv_cons {H : List String → Bool → String} {w : World} {st : Store} {key dt : String} {cs : List Chunk}
-    (hi : StoreInv H w st) (hg : Good H w key (rowsOf cs)) : StoreInv H w (((key, dt), cs) :: st) := by
+theorem storeInv_cons {κ : Type} [DecidableEq κ] {Canon : List String → Prop} {H : List String → Bool → κ} {w : World}
+    {st : Store κ} {key : Key κ} {dt : String} {cs : List Chunk}
+    (hi : StoreInv Canon H w st) (hg : Good Canon H w key (rowsOf cs)) : StoreInv Canon H w (((key, dt), cs) :: st) := by
   intro key' dt' cs' h
   rw [List.lookup_cons] at h
   split at h
@@ -184,8 +193,9 @@ theorem storeInv_cons {H : List String → Bool → String} {w : World} {st : St
     rw [he.1]; exact hg
   · exact hi key' dt' cs' h
 
-theorem descend_rows {H : List String → Bool → String} {w : World} {spec : List String} {comb : Bool} {store : Store}
-    (hs : sortIds spec = spec) (hi : StoreInv H w store) :
+theorem descend_rows {κ : Type} [DecidableEq κ] {Canon : List String → Prop} {H : List String → Bool → κ} {w : World}
+    {spec : List String} {comb : Bool} {store : Store κ}
+    (hs : Canon spec) (hi : StoreInv Canon H w store) :
     ∀ (rev : List Level) (base : List Chunk) (above : List Level),
       descend w spec (superrunKey H w.superName spec comb) store comb rev = .ok (base, above) →
       rowsOf base = spec.flatMap (srcRows w)
@@ -224,10 +234,11 @@ theorem runLevels_rows (rid : String) : ∀ (ls : List Level) (cs : List Chunk) 
     · exact pluginRun_rows ho
     · rw [runLevels_rows rid ls out more hm p hp, pluginRun_rows ho]
 
-theorem saveAll_inv {H : List String → Bool → String} {w : World} {key : String} {rows : List Row}
-    (hg : Good H w key rows) (a : Int) (rid : String) :
-    ∀ (outs : List (Level × List Chunk)) (st st' : Store), (∀ p ∈ outs, rowsOf p.2 = rows) → StoreInv H w st →
-      saveAll a key rid outs st = .ok st' → StoreInv H w st'
+theorem saveAll_inv {κ : Type} [DecidableEq κ] {Canon : List String → Prop} {H : List String → Bool → κ} {w : World}
+    {key : Key κ} {rows : List Row}
+    (hg : Good Canon H w key rows) (a : Int) (rid : String) :
+    ∀ (outs : List (Level × List Chunk)) (st st' : Store κ), (∀ p ∈ outs, rowsOf p.2 = rows) → StoreInv Canon H w st →
+      saveAll a key rid outs st = .ok st' → StoreInv Canon H w st'
   | [], st, st', _, hi, h => by
     simp only [saveAll, pure, Except.pure, Except.ok.injEq] at h; subst h; exact hi
   | (lv, out) :: rest, st, st', hr, hi, h => by
@@ -241,11 +252,12 @@ theorem saveAll_inv {H : List String → Bool → String} {w : World} {key : Str
 /-- **Rows of a superrun, and no stale data.**  For every world, every id-sorted `spec`, every store satisfying
 the invariant, every target level, combining or not, writing or not: if `get_iter` succeeds, the yielded rows are
 the subruns' rows concatenated in `spec` order, and the store still satisfies the invariant. -/
-theorem superGet_rows {H : List String → Bool → String} (hH : ∀ a b c d, H a b = H c d → a = c ∧ b = d)
-    {w : World} {spec : List String} {store store' : Store} {n : Nat} {comb write : Bool} {y : List Chunk}
-    (hs : sortIds spec = spec) (hi : StoreInv H w store)
+theorem superGet_rows {κ : Type} [DecidableEq κ] {Canon : List String → Prop} {H : List String → Bool → κ}
+    (hH : ∀ a b c d, H a b = H c d → a = c ∧ b = d) (hcanon : ∀ a b, Canon a → Canon b → a.Perm b → a = b)
+    {w : World} {spec : List String} {store store' : Store κ} {n : Nat} {comb write : Bool} {y : List Chunk}
+    (hs : Canon spec) (hi : StoreInv Canon H w store)
     (h : superGet H w spec store n comb write = .ok (y, store')) :
-    rowsOf y = spec.flatMap (srcRows w) ∧ StoreInv H w store' := by
+    rowsOf y = spec.flatMap (srcRows w) ∧ StoreInv Canon H w store' := by
   unfold superGet at h
   split at h
   · cases h
@@ -269,7 +281,7 @@ theorem superGet_rows {H : List String → Bool → String} (hH : ∀ a b c d, H
       refine ⟨hy, ?_⟩
       unfold storeAfter at hsv
       split at hsv
-      · exact saveAll_inv (good_of_own hH hs rfl) _ _ outs store _ (fun p hp => by rw [hall p hp, hb]) hi hsv
+      · exact saveAll_inv (good_of_own hH hcanon hs rfl) _ _ outs store _ (fun p hp => by rw [hall p hp, hb]) hi hsv
       · simp only [pure, Except.pure, Except.ok.injEq] at hsv; subst hsv; exact hi
 
 /-! ## 9. id order, keys of permuted specs, histories of gets -/
@@ -295,8 +307,45 @@ theorem sortIds_eq_of_perm {a b : List String} (h : a.Perm b) : sortIds a = sort
     simp only [leId, decide_eq_true_eq] at h1 h2
     exact String.le_antisymm h1 h2
 
-theorem perm_of_sortIds_eq {a b : List String} (h : sortIds a = sortIds b) : a.Perm b :=
-  (sortIds_perm a).symm.trans (h ▸ sortIds_perm b)
+theorem perm_of_sortIds_eq {a b : List String} (h : sortIds a = sortIds b) : a.Perm b := perm_of_sortIds_eq' h
+
+/-- id-sorted specs form a canonical class -/
+theorem canon_sortIds : ∀ a b : List String, sortIds a = a → sortIds b = b → a.Perm b → a = b := by
+  intro a b ha hb h
+  rw [← ha, ← hb]; exact sortIds_eq_of_perm h
+
+/-- strictly sorted by run start according to the run documents -/
+def StartSorted (docs : List (String × Int)) (spec : List String) : Prop :=
+  spec.Pairwise (fun a b => ∃ sa sb, docs.lookup a = some sa ∧ docs.lookup b = some sb ∧ sa < sb)
+
+/-- with distinct run starts the set of subruns determines the start order -/
+theorem canon_startSorted (docs : List (String × Int)) :
+    ∀ a b : List String, StartSorted docs a → StartSorted docs b → a.Perm b → a = b := by
+  intro a b ha hb h
+  refine List.Perm.eq_of_pairwise ?_ ha hb h
+  intro x y _ _ h1 h2
+  obtain ⟨sa, sb, e1, e2, hlt⟩ := h1
+  obtain ⟨sb', sa', e3, e4, hlt'⟩ := h2
+  rw [e1] at e4; rw [e2] at e3
+  cases e3; cases e4
+  omega
+
+/-- `define_run` on runs with pairwise distinct starts yields a strictly start-sorted spec -/
+theorem defineRun_startSorted {docs : List (String × Int)} {data spec : List String} (h : defineRun docs data = .ok spec)
+    (hd : ∀ a b sa sb, a ∈ data → b ∈ data → a ≠ b → docs.lookup a = some sa → docs.lookup b = some sb → sa ≠ sb) :
+    StartSorted docs spec := by
+  have hs := defineRun_sorted h
+  have hn := defineRun_nodup h
+  have hp := defineRun_perm h
+  have hmem : ∀ x ∈ spec, x ∈ data := fun x hx => mem_dedup.mp (hp.subset hx)
+  unfold StartSorted
+  have hboth := (List.Pairwise.and_mem.mp hs).and hn
+  refine hboth.imp ?_
+  intro a b hab
+  obtain ⟨⟨ha, hb, sa, sb, e1, e2, hle⟩, hne⟩ := hab
+  refine ⟨sa, sb, e1, e2, ?_⟩
+  have := hd a b sa sb (hmem a ha) (hmem b hb) hne e1 e2
+  omega
 
 /-- one `get_iter` call of a history: under which definition, for which level, how -/
 structure GetOp where
@@ -307,26 +356,27 @@ structure GetOp where
 
 /-- a history of `get_iter` calls on one context (storage persists, the superrun may be redefined between any two
 calls); it ends at the first call that raises -/
-def runOps (H : List String → Bool → String) (w : World) : Store → List GetOp → List (GetOp × List Chunk)
+def runOps {κ : Type} [DecidableEq κ] (H : List String → Bool → κ) (w : World) : Store κ → List GetOp → List (GetOp × List Chunk)
   | _, [] => []
   | st, op :: ops =>
     match superGet H w op.spec st op.n op.combining op.write with
     | .ok (y, st') => (op, y) :: runOps H w st' ops
     | .error _ => []
 
-theorem runOps_rows {H : List String → Bool → String} (hH : ∀ a b c d, H a b = H c d → a = c ∧ b = d) (w : World) :
-    ∀ (ops : List GetOp) (st : Store), StoreInv H w st → (∀ op ∈ ops, sortIds op.spec = op.spec) →
+theorem runOps_rows {κ : Type} [DecidableEq κ] {Canon : List String → Prop} {H : List String → Bool → κ}
+    (hH : ∀ a b c d, H a b = H c d → a = c ∧ b = d) (hcanon : ∀ a b, Canon a → Canon b → a.Perm b → a = b) (w : World) :
+    ∀ (ops : List GetOp) (st : Store κ), StoreInv Canon H w st → (∀ op ∈ ops, Canon op.spec) →
       ∀ p ∈ runOps H w st ops, rowsOf p.2 = p.1.spec.flatMap (srcRows w)
   | [], _, _, _, p, hp => by simp [runOps] at hp
   | op :: ops, st, hi, hs, p, hp => by
     unfold runOps at hp
     split at hp
     · rename_i y st' hg
-      obtain ⟨hy, hi'⟩ := superGet_rows hH (hs op (by simp)) hi hg
+      obtain ⟨hy, hi'⟩ := superGet_rows hH hcanon (hs op (by simp)) hi hg
       simp only [List.mem_cons] at hp
       rcases hp with rfl | hp
       · exact hy
-      · exact runOps_rows hH w ops st' hi' (fun o ho => hs o (by simp [ho])) p hp
+      · exact runOps_rows hH hcanon w ops st' hi' (fun o ho => hs o (by simp [ho])) p hp
     · simp at hp
 
 end Strax.Superrun
